@@ -726,7 +726,8 @@ def r11(ctx, prog):
     ctx.rule('C19.R11', 'A10 residue-class abstraction of the Base64 decoder writing to a caller buffer: the loop is a 4-state machine (position mod 4); walking the four '
              'case bodies with the output cursor as base+delta gives every store its offset inside the 3-byte group, and the capacity that the dominating '
              'DecodeLength() test guarantees when the input ends (pads) right after that character is 3 - min(pad decrements, 3 - k): every store offset must lie '
-             'below it, and one cycle must advance the cursor by exactly 3', floor=5)
+             'below it, and one cycle must advance the cursor by exactly 3 (a decoding loop that is not a switch over the position is decided by replay instead: every placement '
+             'of padding in texts of one to three quartets, decoded into exactly DecodeLength(text) cells with a guard cell behind)', floor=5)
     cands = [f for f in prog.funcs.values() if f.file.endswith('util/base64.cpp') and f.short == 'Decode' and f.parent_func is None and len(f.params) == 4 and
              '*' in f.params[2]['ct'] and 'const' not in f.params[2]['ct']]
     dl = [f for f in prog.funcs.values() if f.file.endswith('util/base64.cpp') and f.short == 'DecodeLength' and len(f.params) == 2]
@@ -751,7 +752,15 @@ def r11(ctx, prog):
     cap = f.params[3]['d']
     loop = [st for st in f.stmts if st and st['k'] in ('ForStmt', 'WhileStmt') and any(f.stmts[x]['k'] == 'SwitchStmt' for x in f.walk(st['i']))]
     if len(loop) != 1:
-        raise AnalysisBroken('Base64 Decode: decoding loop with a switch not found')
+        # the decoding loop is not written as a switch over the position: the same bound — no store beyond what DecodeLength() advertises, wherever the padding starts —
+        # is decided by replay: every placement of padding in texts of one to three quartets, decoded into exactly DecodeLength(text) cells with a guard cell behind
+        from rules import C19_digests
+        res = C19_digests.b64_pad_walk(prog)
+        if len(res) < 5:
+            raise AnalysisBroken('Base64 Decode: the replay over padding placements covered %d classes' % len(res))
+        for cls, (n_, why) in sorted(res.items()):
+            ctx.ob('C19.R11', '%s|%s' % (f.name, cls), why is None, '%d texts decoded inside the advertised length' % n_ if why is None else why, where=f.loc(f.body))
+        return
     loop = loop[0]
     sw = [f.stmts[x] for x in f.walk(loop['i']) if f.stmts[x]['k'] == 'SwitchStmt'][0]
     lp = f.cfg.point_of(sw['cond'])
@@ -931,4 +940,7 @@ def run(ctx):
     from rules import C19_values
     ctx.guard(C19_values.r19, ctx, prog)
     ctx.guard(C19_values.r20, ctx, prog)
+    from rules import C19_digests
+    ctx.guard(C19_digests.r21, ctx, prog)
+    ctx.guard(C19_digests.r22, ctx, prog)
     return prog
